@@ -315,7 +315,7 @@ class C12:
         rng = random.Random(f"{sh['seed']}/C12/{sh['index']}")
         if sh["inject"]:
             self.inj = self.injector(sh["seed"])
-        for i in range(sh["n"]):
+        for i in harness.budgeted(range(sh["n"]), rec):
             hc = [o for o in ("ignoredups", "ignoreerr", "ignorespace") if rng.random() < 0.35]
             case = {"backend": sh["kind"], "rseed": f"{sh['seed']}/C12/{sh['index']}/{i}", "steps": 30, "bufsize": rng.choice([1, 2, 3, 10]), "histcontrol": hc, "store_stdout": rng.random() < 0.3, "inject": sh["inject"]}
             if i < 1:
